@@ -45,7 +45,7 @@ TSlice == /\ IsEv("slice")
                  sel == SelOf(E)
              IN /\ SelInBounds(sel, v.shape)
                 /\ LET w == [sid |-> 1, shape |-> E.dims, offs |-> SliceOffs(v, sel),
-                             aff |-> AffSlice(v.aff, sel), affine |-> v.affine]
+                             aff |-> IF v.affine THEN AffSlice(v.aff, sel) ELSE v.aff, affine |-> v.affine]
                    IN /\ ObsOK(E, w, stores[1])
                       /\ views' = Append(views, w)
           /\ E.store = stores[1]
